@@ -13,7 +13,8 @@ needs = sys.argv[3] if len(sys.argv) > 3 else ""
 breaks = sys.argv[4] if len(sys.argv) > 4 else ""
 checks = sys.argv[5].split(",") if len(sys.argv) > 5 else [prop]
 wt = Path(f"/tmp/wt/{prop}")
-src = Path(f"/tmp/seed/{prop}")
+src = Path(os.environ.get("SEED_SRC", "/tmp/seed")) / prop
+tag = os.environ.get("SEED_TAG", "")
 patch = src / f"patch{k}.diff"
 demo = src / f"demo{k}.py"
 VERIF = Path("/verif")
@@ -43,12 +44,12 @@ import seedtest
 res = seedtest.run(patch, checks)
 det = {p: {"rc": rc, "rules": rules} for p, (rc, rules, out) in res.items()}
 print("checks:", det)
-out = VERIF / "seeded" / f"{prop}-{k}"
+out = VERIF / "seeded" / f"{prop}-{tag}{k}"
 out.mkdir(parents=True, exist_ok=True)
 shutil.copy(patch, out / "patch.diff")
 shutil.copy(demo, out / "demo.py")
 meta = {
-  "id": f"{prop}-{k}", "property": prop, "breaks": breaks, "needs_to_manifest": needs,
+  "id": f"{prop}-{tag}{k}", "property": prop, "breaks": breaks, "needs_to_manifest": needs,
   "author": "independent sub-agent given only the property text and a scratch worktree",
   "confirmed": {
      "worktree": str(wt), "base_commit": sh("git rev-parse HEAD").stdout.strip(),
